@@ -34,6 +34,11 @@ PROPS = {
 }
 
 
+for _kv in filter(None, os.environ.get("VERIF_PROPS_OVERRIDE", "").split(",")):
+    _k, _v = _kv.split("=", 1)
+    PROPS[_k.strip()] = _v.strip()
+
+
 def _json_default(o):
     try:
         import numpy as np
